@@ -4,6 +4,7 @@
 #   ./run.sh --replay <file>             re-run one saved case without the generators
 # Always rebuilds from /repo's current working tree (cargo fingerprints path = "/repo").
 set -u
+orig_pwd="$(pwd)"
 cd "$(dirname "$0")"
 export CARGO_NET_OFFLINE=true
 export VERIF_DIR="$(pwd)"
@@ -14,6 +15,8 @@ mkdir -p work/bin work/log evidence replays
 if [ $# -lt 2 ]; then echo "usage: $0 <Cnn> <quick|thorough> | --replay <file>" >&2; exit 2; fi
 prop="$1"; arg="$2"
 if [ "$prop" = "--replay" ]; then
+  # a relative path is relative to the caller's directory (or to /verif)
+  case "$arg" in /*) ;; *) if [ -e "$orig_pwd/$arg" ]; then arg="$orig_pwd/$arg"; else arg="$VERIF_DIR/$arg"; fi ;; esac
   prop=$(python3 -c 'import json,sys; print(json.load(open(sys.argv[1]))["property"])' "$arg" 2>/dev/null) || { echo "cannot read replay file" >&2; exit 2; }
   mode=replay
 else
